@@ -37,7 +37,7 @@ _STAGE_LOCK = _threading.Lock()
 class Real:
     def __init__(self, contents, depth=3, width=2, store_alg="SHA-256",
                  ns="https://ns.dataone.org/service/types/v2.0#SystemMetadata", base=None, root=None, props=None,
-                 mp=False):
+                 mp=False, relative=False):
         from hashstore.filehashstore import FileHashStore
         self.own_base = base is None
         self.base = base or scratch_base()
@@ -50,6 +50,12 @@ class Real:
             "store_path": self.root, "store_depth": depth, "store_width": width,
             "store_algorithm": store_alg, "store_metadata_namespace": ns,
         }
+        self._old_cwd = None
+        if relative and props is None and root is None:
+            # the store path as many callers give it: relative to the working directory (one such store at a time)
+            self._old_cwd = os.getcwd()
+            os.chdir(self.base)
+            self.props["store_path"] = "store"
         if mp:
             old = os.environ.get("USE_MULTIPROCESSING")
             os.environ["USE_MULTIPROCESSING"] = "True"
@@ -235,6 +241,12 @@ class Real:
                 s.close()
             except Exception:
                 pass
+        if self._old_cwd is not None:
+            try:
+                os.chdir(self._old_cwd)
+            except OSError:
+                pass
+            self._old_cwd = None
         if self.own_base:
             shutil.rmtree(self.base, ignore_errors=True)
 
